@@ -134,6 +134,15 @@ def load_obligations():
         return json.load(f)
 
 
+def prop_modules(prop, obligations):
+    mods = []
+    for o in obligations.get(prop, []):
+        m = o.get("module", f"Nutree.Properties.{prop}")
+        if m not in mods:
+            mods.append(m)
+    return mods or [f"Nutree.Properties.{prop}"]
+
+
 def lake_build(targets, timeout=3000):
     rc, out = run(["lake", "build"] + targets, cwd=LEAN, timeout=timeout)
     return rc, out
@@ -188,7 +197,7 @@ def audit(prop, obligations):
     adir = os.path.join(LEAN, ".lake", "audit")
     os.makedirs(adir, exist_ok=True)
     path = os.path.join(adir, f"{prop}_{os.getpid()}.lean")
-    lines = [f"import Nutree.Properties.{prop}", "set_option pp.fullNames true", "set_option format.width 100000"]
+    lines = [f"import {m}" for m in prop_modules(prop, obligations)] + ["set_option pp.fullNames true", "set_option format.width 100000"]
     for o in obs:
         lines.append(f'#eval IO.println "=====AX {o["name"]}"')
         lines.append(f"#print axioms {o['name']}")
